@@ -88,6 +88,25 @@ func main() {
 		case "slurp":
 			b, _ := io.ReadAll(stdin)
 			send("got " + strconv.Quote(string(b)))
+		case "line1":
+			// read exactly one line from the real descriptor, byte by byte (no read-ahead), so that
+			// whoever shares the descriptor continues right after it
+			var b []byte
+			one := make([]byte, 1)
+			for {
+				n, err := os.Stdin.Read(one)
+				if n == 1 {
+					b = append(b, one[0])
+					if one[0] == '\n' {
+						break
+					}
+				}
+				if err != nil {
+					break
+				}
+			}
+			os.Stdout.WriteString("sh:" + string(b))
+			send("got " + strconv.Quote(string(b)))
 		case "line":
 			b, _ := stdin.ReadString('\n')
 			send("got " + strconv.Quote(b))
